@@ -5,7 +5,7 @@
    length prefix for a padding chunk of total size p and then paddingBuffer[:p - len(prefix)].  Two things of
    the package variable paddingBuffer enter: its LENGTH (the batch size, 1024 in the pinned code) and its
    CONTENTS (the fill bytes, zeros in the pinned code; the format puts no restriction on them).
-   Model/Encap.v [write_padding] is the instance (1024, zeros).  Here both are parameters, so that the
+   Model/Encap.v [write_padding] is the instance (1024, zeros).  Here both are arguments, so that the
    clause "padding is invisible" can be stated for every batch size and every fill, and the point where it
    stops to hold is visible: the switch's three-byte-prefix case masks its middle byte with 0x3f instead of
    0x7f.  With batches of at most 8193 bytes that case is never taken; a batch of exactly 8194 takes it with
